@@ -58,7 +58,7 @@ def main():
     body = [head, '',
             '| seed | first verdict | why it slipped | strengthening / verdict now |', '|---|---|---|---|']
     body += [t for _p, _k, t in seeds]
-    body += ['', '**Genuine defects found in rounds 3b–5 by the builders and by adversaries reading the unchanged tree** (each repaired by one '
+    body += ['', '**Genuine defects found in rounds 3b–6 by the builders and by adversaries reading the unchanged tree** (each repaired by one '
              '`fix:` commit in /repo unless stated otherwise; `fixed` entries in `known_findings.json`; write-ups in `fixes/`):', '']
     body += [f'* {t}' for _st, t in lines_of('FINDING')]
     body += ['', '**False alarms of our own machinery met in rounds 4 to 6** (each corrected; none loosened a check that was right):', '']
